@@ -45,6 +45,13 @@ def facts_controls(ctx, rep):
     if not (got.get("strip_bad") and not any(got["strip_bad"]) and got.get("strip_ok") and all(got["strip_ok"])
             and got.get("strip_ptr_bad") and not any(got["strip_ptr_bad"]) and got.get("strip_ptr_ok") and all(got["strip_ptr_ok"])):
         _fail(rep, "end-index", "end-indexed string control: %s" % got)
+    from .props.c08 import string_writer_sites
+    sw = {}
+    for f, c, ext, mx, ok in string_writer_sites(mod):
+        sw[f.cname] = ok
+    want = {"fmt_bad": False, "fmt_ok": True, "fmt_s_bad": False, "fmt_s_ok": True, "cpy_bad": False, "cpy_ok": True, "fld_bad": False, "fld_ok": True}
+    if {k: sw.get(k) for k in want} != want:
+        _fail(rep, "string-writers", "sprintf/strcpy into fixed buffers control: %s" % {k: sw.get(k) for k in want})
     imod = ctx.fixture("fx_facts", inline=True)
     sel = {}
     for fname in ("flagsel_ok", "flagsel_bad"):
